@@ -506,6 +506,15 @@ def check_determinism_taint(ck, R):
             bad = sorted({x[5:] for x in d if x.startswith("call:") and x[5:] in NONDETERMINISTIC_CALLS | {"repr"}})
             ck.ob(R, f2.key(c, "rule-key"), not bad, "rule keys are symbolic names" if not bad else
                   "a rule key depends on %s: rule order (and the version) differs between processes" % bad, f2.where(c))
+            # keys must be injective on what is tracked: __qualname__ is not unique (every lambda is
+            # called '<lambda>'), so a key built from it must also carry the symbol it was reached by
+            uses_qualname = any("__qualname__" in x for x in d)
+            has_symbol = "param:symbol" in d
+            okq = (not uses_qualname) or has_symbol
+            ck.ob(R, f2.key(None, "rule-key-injective"), okq, "the rule key identifies one tracked object" if okq else
+                  "the rule key is built from __qualname__ without the symbol: two module-level lambdas used by one function share the key "
+                  "'...:<lambda>', only one of them (which one depends on the hash seed) is hashed, so the version differs between processes "
+                  "and edits to the other are never seen", f2.where(c))
     ck.need(sinks >= 4, "determinism taint: only %d digest sinks found" % sinks)
 
 
